@@ -62,6 +62,7 @@ def apply_regs(decls, regs):
 
 
 def gen(tier, seed):
+    yield from late_specs()
     rng = core.seeded_rng(seed, 'c14')
     n = 12000 if tier == 'quick' else 200000
     made = 0
@@ -86,7 +87,66 @@ def gen(tier, seed):
         yield spec
 
 
+LATE_DECLS = [D('i', 'int', default=0), D('sec', 'sec', F_MULTI, sub=[D('x', 'int', default=1), D('xl', 'int', core.F_LIST, default=None)]),
+              D('tsec', 'sec', F_MULTI | F_TITLE, sub=[D('y', 'int', default=1), D('inner', 'sec', F_MULTI, sub=[D('z', 'int', default=1)])]),
+              D('one', 'sec', 0, sub=[D('w', 'int', default=1)])]
+LATE_FIRST = ['', 'sec { x = 1 }\n', 'tsec a { y = 1 }\n', 'sec { x = 1 }\nsec { x = 2 }\ntsec a { y = 1 inner { z = 1 } }\none { w = 2 }\n']
+LATE_REGS = ['sec|x', 'sec|xl', 'tsec|y', 'tsec|inner|z', 'one|w', 'i']
+LATE_SECOND = 'i = 5\nsec { x = 7 xl = {1, 2} }\ntsec b { y = 8 inner { z = 9 } }\ntsec a { y = 10 }\none { w = 11 }\n'
+# invocations the second text must produce once the validators are registered by path (new instances and re-opened ones alike)
+LATE_EXPECT = [('i', [5]), ('x', [7]), ('xl', [1]), ('xl', [1, 2]), ('y', [8]), ('z', [9]), ('y', [10]), ('w', [11])]
+
+
+def late_specs():
+    """validators registered by schema path AFTER instances of the sections exist"""
+    for first in range(len(LATE_FIRST)):
+        yield {'late': first, 'k': 0}
+        for k in range(1, 12):
+            yield {'late': first, 'k': k}
+
+
+def late_script(spec):
+    lines, sid = schema.emit_schema(LATE_DECLS)
+    L = list(lines) + ['init 0 %d 0' % sid, 'parse_buf 0 %s' % hx(LATE_FIRST[spec['late']])]
+    L += ['set_validate_func 0 %s 1' % hx(r) for r in LATE_REGS]
+    L += ['note second', 'failat %d' % spec['k'], 'parse_buf 0 %s' % hx(LATE_SECOND), 'failat 0', 'dump 0']
+    return '\n'.join(L)
+
+
+def late_judge(spec, events, death):
+    v = Verdict()
+    v.nontrivial = True
+    if death is not None:
+        v.bad('crash:%s@%s:late-registration' % (death['kind'], death['where']), death['text'][-400:])
+        return v
+    i0 = next((i for i, e in enumerate(events) if e.get('ev') == 'note'), None)
+    evs = events[i0:] if i0 is not None else []
+    r = [e for e in evs if e.get('ev') == 'r' and e.get('op') == 'parse_buf']
+    tr = [t for t in lib_trace(evs) if t[0] == 'valid']
+    v.notes['late_registration_cases'] = 1
+    # required subsequence (additional validations of an unchanged option are tolerated)
+    need = [(n, vals) for n, vals in LATE_EXPECT]
+    if spec['k'] == 0:
+        pos = 0
+        for t in tr:
+            if pos < len(need) and t[1] == need[pos][0] and t[2] == need[pos][1]:
+                pos += 1
+        if not r or r[0]['rc'] != 0:
+            v.bad('late-registration:rejected', 'second text rejected')
+        elif pos < len(need):
+            v.bad('late-registration:not-invoked:%s' % need[pos][0], 'validator registered by path for %r was not invoked for value %r of the text parsed afterwards (first text %r); trace %r' % (
+                need[pos][0], need[pos][1], LATE_FIRST[spec['late']], tr[:10]))
+    else:
+        if spec['k'] <= len(tr) + 0 and r and r[0]['rc'] == 0 and len(tr) >= spec['k']:
+            v.bad('late-registration:verdict-ignored', 'invocation %d returned failure but the parse succeeded' % spec['k'])
+        if spec['k'] <= len(need) and len(tr) < spec['k']:
+            v.bad('late-registration:not-invoked', 'fewer invocations (%d) than required before failing invocation %d' % (len(tr), spec['k']))
+    return v
+
+
 def script(spec):
+    if 'late' in spec:
+        return late_script(spec)
     decls = [D.from_json(j) for j in spec['decls']]
     lines, sid = schema.emit_schema(decls)
     text = ' '.join(t[1] for t in spec['toks']) + '\n'
@@ -204,6 +264,8 @@ def align(mtrace, ltrace):
 
 
 def judge(spec, events, death):
+    if 'late' in spec:
+        return late_judge(spec, events, death)
     v = Verdict()
     decls = apply_regs([D.from_json(j) for j in spec['decls']], spec['regs'])
     text = ' '.join(t[1] for t in spec['toks'])
